@@ -814,6 +814,15 @@ pub fn do_op(sh: &Arc<Shared>, local: &mut TaskLocal, op: &Op) -> OpResult {
         | Op::GutsChunk { .. }
         | Op::GutsParent { .. } => crate::ops2::do_op2(sh, local, op),
         Op::DebugFmt { .. } | Op::Zeroize { .. } => crate::ops2::do_op2(sh, local, op),
+        Op::CliFile { .. }
+        | Op::CliFsFault { .. }
+        | Op::CliHash { .. }
+        | Op::CliDamage { .. }
+        | Op::CliCheck { .. }
+        | Op::PathRoundTrip { .. }
+        | Op::ParseMutations { .. }
+        | Op::ParseLine { .. }
+        | Op::FileKinds { .. } => crate::cli::do_cli(sh, local, op),
         Op::CInit { .. } | Op::CUpdate { .. } | Op::CFinalize { .. } | Op::CReset { .. } | Op::CCopy { .. } | Op::CSetMask { .. } => {
             crate::cnode::do_cop(sh, local, op)
         }
